@@ -213,8 +213,12 @@ def run(tier: str, seed: int, t0: float) -> int:
     jobs = []
     # ---- M: spec-level sanity of Render and ContextMatches
     schT, jsT = schemas.build("test")
-    gb = universe.bounds(4 if not thorough else 5, max_depth=3, max_run=2, chars=(97, 32, 160), marksets=((), (universe.EM,), ({"t": "link", "a": "{\"href\":\"u\",\"title\":null}"},)),
-                         attrs={"heading": [{"level": "1"}, {"level": "2"}], "image": [{"src": "\"s\"", "alt": "null", "title": "null"}], "ordered_list": [{"order": "1"}, {"order": "3"}]})
+    gb = universe.bounds(4 if not thorough else 5, max_depth=3, max_run=2, chars=(97, 32, 160), marksets=((), (universe.EM,), ({"t": "link", "a": "{\"href\":\"u\",\"title\":null}"},),
+                                                                                                 ({"t": "link", "a": "{\"href\":\"\",\"title\":\"\"}"},)),
+                         # (attribute values that are present but empty must survive export and import)
+                         attrs={"heading": [{"level": "1"}, {"level": "2"}],
+                                "image": [{"src": "\"s\"", "alt": "null", "title": "null"}, {"src": "\"s\"", "alt": "\"\"", "title": "\"\""}],
+                                "ordered_list": [{"order": "1"}, {"order": "3"}]})
     sch, js, docs = universe.tlc_docs("test", gb, stats)
     dom = dom_tables("test")
     path = tlc.write_input({"schema": js, "gen": gb, "dom": dom, "markattrs": markattrs_table(docs)}, "mcdom")
